@@ -308,6 +308,9 @@ impl<T> OpResult<T> {
 thread_local! {
     static LAST_PANIC: RefCell<String> = const { RefCell::new(String::new()) };
     static IN_OP: std::cell::Cell<bool> = const { std::cell::Cell::new(false) };
+    /// the same flag, shared with the watchdog thread of the runner (which must tell a library
+    /// operation that never reaches a seam from a loop in generator or oracle code)
+    pub static IN_OP_SHARED: std::cell::RefCell<Option<std::sync::Arc<std::sync::atomic::AtomicBool>>> = const { std::cell::RefCell::new(None) };
 }
 
 /// Installed once per process: records the panic message for the oracle and prints nothing.
@@ -382,8 +385,18 @@ impl Sim {
             s.log.str(name);
         }
         IN_OP.with(|f| f.set(true));
+        IN_OP_SHARED.with(|f| {
+            if let Some(a) = f.borrow().as_ref() {
+                a.store(true, std::sync::atomic::Ordering::Relaxed);
+            }
+        });
         let r = catch_unwind(AssertUnwindSafe(f));
         IN_OP.with(|f| f.set(false));
+        IN_OP_SHARED.with(|f| {
+            if let Some(a) = f.borrow().as_ref() {
+                a.store(false, std::sync::atomic::Ordering::Relaxed);
+            }
+        });
         let mut s = self.state.borrow_mut();
         s.op_budget = u64::MAX;
         let was_stopped = s.stopped;
